@@ -290,7 +290,7 @@ def _r6(ctx: Context, tree: str, N: Names, h11c, h2c) -> None:
             rep.ob("C01.R6", fkey(tree, it, "body-binding"), ok, where(it, call), f"body read uses {alts} on {norm(call.func.value)}")
 
 
-def _r7(ctx: Context, tree: str, N: Names, h2c) -> None:
+def _r7(ctx: Context, tree: str, N: Names, h2c, rule: str = "C01.R7") -> None:
     rep = ctx.rep
     n = 0
     for f in h2c.methods.values():
@@ -317,10 +317,10 @@ def _r7(ctx: Context, tree: str, N: Names, h2c) -> None:
                     detail += f": appends `{ev}` under its own id (membership guard: {guarded})" if appended else ": event-keyed access that is not an append of that event"
                 else:
                     detail += ": key is neither the routine's stream_id nor the event's own stream_id"
-                rep.ob("C01.R7", fkey(tree, f, norm(p if p is not None else sub)[:70]), ok, where(f, sub), detail)
-    rep.floor("C01.R7", f"accesses to the HTTP/2 event table ({tree})", n, 4)
+                rep.ob(rule, fkey(tree, f, norm(p if p is not None else sub)[:70]), ok, where(f, sub), detail)
+    rep.floor(rule, f"accesses to the HTTP/2 event table ({tree})", n, 4)
     # reads of the table by .get(): key must be the routine's stream id
     for f in h2c.methods.values():
         for c in calls_named(f, "get"):
             if norm(c.func.value) == "self._events":
-                rep.ob("C01.R7", fkey(tree, f, norm(c)), [norm(a) for a in c.args] == ["stream_id"], where(f, c), f"`{ast.unparse(c)}` looks up the routine's own stream id")
+                rep.ob(rule, fkey(tree, f, norm(c)), [norm(a) for a in c.args] == ["stream_id"], where(f, c), f"`{ast.unparse(c)}` looks up the routine's own stream id")
